@@ -1,7 +1,9 @@
 /-
   C16 — CopyFileSystem copies faithfully and CompareFS tells the truth.
-  Property theorems only; helper lemmas live in Proofs/Sync.lean and Proofs/SyncCopy.lean,
-  the tree spec in Spec/SyncTree.lean, the mirror of sync/copy.go + sync/verify.go in Model/Sync.lean.
+  Property theorems only; helper lemmas live in Proofs/Sync.lean, Proofs/SyncCopy.lean, Proofs/SyncFault.lean,
+  Proofs/SyncVerdict.lean and Proofs/SyncStop.lean, the tree spec in Spec/SyncTree.lean, the mirror of
+  sync/copy.go + sync/verify.go in Model/Sync.lean and — with a destination whose calls may fail or take only
+  part of a slice — in Model/SyncFault.lean.
 
   Quantifiers: every well-formed source tree (any depth, any contents, any names — distinct inside a
   directory), every parameter set satisfying `Cfg.wf` (discharged for the regenerated facts by
@@ -11,6 +13,7 @@
   spec does not model; the model answers `unsupported` there and the theorems never rely on it.
 -/
 import DiskfsModel.Proofs.SyncCopy
+import DiskfsModel.Proofs.SyncStop
 import DiskfsModel.Generated.SyncFs
 namespace Diskfs.Sync.C16
 open Diskfs.Sync Forest
@@ -71,6 +74,87 @@ theorem copy_file_writes (c : Cfg) (hc : c.wf = true) (src : ReaderBehaviour) (d
           · exact ih _ _ _ hx
     exact this _ _ _ _ hlen
 
+/-! ## CopyFileSystem against a destination whose calls fail or take part of a slice
+
+    `Plan` gives the outcome of the i-th destination call (nil / an error / a Write taking n bytes);
+    `copyRunF` is CopyFileSystem under that plan: `log` the calls issued with their outcomes, `eff` their
+    effect on the destination, `ok` whether nil was returned.  All theorems hold for every plan, every tree
+    and every source reader chunking, on the whole-file path and on the > maxAll streaming path. -/
+
+/-- Error propagation: a failing Mkdir / OpenFile / Write / Symlink, or a Write that takes nothing of a
+    non-empty slice, makes CopyFileSystem return an error — it never returns nil after such an outcome. -/
+theorem copy_reports_every_failure (c : Cfg) (src : ReaderBehaviour) (readlink : Bool) (plan : Plan) (t : Forest)
+    (e : DstOp × Outcome) (he : e ∈ (copyRunF c src readlink plan t).log) (hf : fatal e = true) :
+    (copyRunF c src readlink plan t).ok = false := by
+  cases hok : (copyRunF c src readlink plan t).ok with
+  | false => rfl
+  | true =>
+    have := noFatal_copyDirF c src readlink plan t [] 0 hok e he
+    rw [this] at hf
+    exact absurd hf (by simp)
+
+/-- … and stops: the failing call is the last call CopyFileSystem issues. -/
+theorem copy_stops_at_failure (c : Cfg) (src : ReaderBehaviour) (readlink : Bool) (plan : Plan) (t : Forest)
+    (before after : List (DstOp × Outcome)) (e : DstOp × Outcome)
+    (hl : (copyRunF c src readlink plan t).log = before ++ e :: after) (hf : fatal e = true) :
+    after = [] ∧ (copyRunF c src readlink plan t).ok = false :=
+  fatalLast_copyDirF c src readlink plan t [] 0 before e after hl hf
+
+/-- every logged outcome is one the plan prescribed (the log is not invented) -/
+theorem copy_log_from_plan (c : Cfg) (src : ReaderBehaviour) (readlink : Bool) (plan : Plan) (t : Forest) :
+    ∀ e ∈ (copyRunF c src readlink plan t).log, ∃ j, e.2 = plan j :=
+  copyDirF_log_plan c src readlink plan t [] 0
+
+/-- Success under faults is still faithful: whenever CopyFileSystem returns nil — whatever Chtimes calls
+    failed, however the destination split the Writes (short writes retried on the streaming path, the whole
+    slice demanded on the whole-file path), however the source reader chunked — an empty tree-like destination
+    holds exactly the source minus excluded names minus special files. -/
+theorem copy_success_is_faithful (c : Cfg) (hc : c.wf = true) (src : ReaderBehaviour) (readlink : Bool) (plan : Plan)
+    (t : Forest) (hwf : t.wf = true) (hok : (copyRunF c src readlink plan t).ok = true) :
+    applyOps (copyRunF c src readlink plan t).eff [] = some ((copyImage c.excluded t).flatAt []) := by
+  have := copyDirF_apply c (wf_excl_dot c hc).2.2 src readlink plan t [] [] 0 hwf rfl
+    (by intro e he; cases he) hok
+  simpa [copyRunF, copyImage] using this
+
+/-- the same, read through paths -/
+theorem copy_success_lookup (c : Cfg) (hc : c.wf = true) (src : ReaderBehaviour) (readlink : Bool) (plan : Plan)
+    (t : Forest) (hwf : t.wf = true) (hok : (copyRunF c src readlink plan t).ok = true) :
+    ∃ dst, applyOps (copyRunF c src readlink plan t).eff [] = some dst ∧
+      ∀ p, dst.item p = (copyImage c.excluded t).lookup p :=
+  ⟨_, copy_success_is_faithful c hc src readlink plan t hwf hok,
+    fun p => item_flatAt _ (wf_strip c.excluded false t hwf) p⟩
+
+/-- Chtimes failures are benign: a run in which every call except possibly Chtimes calls returned nil and
+    took everything it was given issues exactly the calls of the fault-free run, with the same effect and the
+    same result. -/
+theorem copy_chtimes_failures_benign (c : Cfg) (hc : c.wf = true) (src : ReaderBehaviour) (readlink : Bool)
+    (plan : Plan) (t : Forest) (hb : Benign (copyRunF c src readlink plan t)) :
+    (copyRunF c src readlink plan t).log.map (·.1) = (copyOps c src readlink t).1 ∧
+    (copyRunF c src readlink plan t).eff = (copyOps c src readlink t).1 ∧
+    (copyRunF c src readlink plan t).ok = (copyOps c src readlink t).2 :=
+  agrees_copyDirF c (wf_excl_dot c hc).2.2 src readlink plan t [] 0 hb
+
+/-- hence CopyFileSystem fails only with a cause: if it returns an error although the source can read its
+    symlinks (or has none to copy), some call other than Chtimes returned an error or took less than it was given -/
+theorem copy_fails_only_with_cause (c : Cfg) (hc : c.wf = true) (src : ReaderBehaviour) (readlink : Bool)
+    (plan : Plan) (t : Forest) (hwf : t.wf = true) (hl : readlink = true ∨ (copyImage c.excluded t).noLinks = true)
+    (hfail : (copyRunF c src readlink plan t).ok = false) :
+    ∃ e ∈ (copyRunF c src readlink plan t).log, e.2 ≠ .ok ∧ isChtimes e.1 = false := by
+  apply Classical.byContradiction
+  intro hne
+  have hb : Benign (copyRunF c src readlink plan t) := by
+    intro e he
+    by_cases h1 : e.2 = .ok
+    · exact Or.inl h1
+    · right
+      cases h2 : isChtimes e.1 with
+      | true => rfl
+      | false => exact absurd ⟨e, he, h1, h2⟩ hne
+  have h3 := (copy_chtimes_failures_benign c hc src readlink plan t hb).2.2
+  rw [(copy_faithful c hc src readlink t hwf hl).1] at h3
+  rw [h3] at hfail
+  exact absurd hfail (by simp)
+
 /-! ## CompareFS -/
 
 /-- CompareFS returns nil exactly when the two trees, minus excluded names, have the same paths,
@@ -92,6 +176,41 @@ theorem copy_then_compare_ok (c : Cfg) (hc : c.wf = true) (ra rb : ReaderBehavio
   intro p
   unfold stripExcluded
   rw [strip_plain_keepOther _ _ hp, strip_idem]
+
+/-- CompareFS is a total decision procedure whose every answer is true: `ok` means the trees are equal up
+    to excluded names; `missing` / `extra` name a path one side has and the other lacks; `type mismatch` a
+    path that is a directory on one side and a file on the other (at any depth, an empty directory included);
+    `size mismatch` two files of different length; `content mismatch` two files of the same length that
+    differ — and `unsupported` never comes out for trees of files and directories. -/
+theorem compare_verdict_truthful (c : Cfg) (hc : c.wf = true) (ra rb : ReaderBehaviour)
+    (hfa : FullReads ra c.cmpBuf) (hfb : FullReads rb c.cmpBuf) (a b : Forest)
+    (hwa : a.wf = true) (hwb : b.wf = true) (hpa : a.plain = true) (hpb : b.plain = true) :
+    VerdictTrue c.excluded a b (compareFS c ra rb a b) :=
+  compareFS_truthful c hc ra rb hfa hfb a b hwa hwb hpa hpb
+
+/-- the `ok` answer does not depend on which side is called the original -/
+theorem compare_ok_symmetric (c : Cfg) (hc : c.wf = true) (ra rb ra' rb' : ReaderBehaviour)
+    (hfa : FullReads ra c.cmpBuf) (hfb : FullReads rb c.cmpBuf) (hfa' : FullReads ra' c.cmpBuf)
+    (hfb' : FullReads rb' c.cmpBuf) (a b : Forest)
+    (hwa : a.wf = true) (hwb : b.wf = true) (hpa : a.plain = true) (hpb : b.plain = true) :
+    compareFS c ra rb a b = .ok ↔ compareFS c ra' rb' b a = .ok := by
+  rw [compareFS_ok_iff c hc ra rb hfa hfb a b hwa hwb hpa, compareFS_ok_iff c hc ra' rb' hfa' hfb' b a hwb hwa hpb]
+  exact ⟨treeEq_symm, treeEq_symm⟩
+
+/-- Copy, then compare: for every tree of files and directories, every fault plan under which
+    CopyFileSystem returns nil and every tree `b` that reads like the destination afterwards, CompareFS of the
+    source against `b` returns nil. -/
+theorem copy_then_compare_ok_under_faults (c : Cfg) (hc : c.wf = true) (ra rb src : ReaderBehaviour)
+    (hfa : FullReads ra c.cmpBuf) (hfb : FullReads rb c.cmpBuf) (readlink : Bool) (plan : Plan) (t b : Forest)
+    (hwf : t.wf = true) (hp : t.plain = true) (hwb : b.wf = true)
+    (hok : (copyRunF c src readlink plan t).ok = true) (dst : Store)
+    (hd : applyOps (copyRunF c src readlink plan t).eff [] = some dst) (hb : ∀ p, b.lookup p = dst.item p) :
+    compareFS c ra rb t b = .ok := by
+  have hd' := copy_success_is_faithful c hc src readlink plan t hwf hok
+  rw [hd] at hd'
+  have hdst : dst = (copyImage c.excluded t).flatAt [] := Option.some.inj hd'
+  subst hdst
+  exact compare_after_copy c hc ra rb hfa hfb t b hwf hp hwb hb
 
 /-- Every single-point mutation — a file's bytes changed (one byte, or the length), an entry missing,
     an extra entry, a file where a directory was or the reverse, anywhere in the tree outside excluded
@@ -191,5 +310,43 @@ example : compareFS exCfg (fullReader) (fullReader) exB (.file "d" [] (.file "f"
   decide
 example : compareFS exCfg (fullReader) (fullReader) exB (.dir "d" (.file "a" [1, 2] .nil) (.file "f" [5] (.file "g" [] .nil)))
     = .extra ["g"] := by decide
+
+/-! non-vacuity of the fault theorems: one failing Mkdir stops the copy at once; a failing Chtimes changes
+    nothing; a destination that takes one byte per Write still ends with the right content on the streaming path -/
+private def exSmall : Cfg := ⟨["lost+found"], 4, 3, 4⟩
+private def exT : Forest := .dir "d" (.file "a" [1, 2, 3, 4, 5, 6, 7] .nil) (.file "f" [9] .nil)
+example : (copyRunF exSmall fullReader true (planAt 0 .fail) exT).ok = false ∧
+    (copyRunF exSmall fullReader true (planAt 0 .fail) exT).log = [(.mkdir ["d"], .fail)] := by decide
+example : fatal (DstOp.mkdir ["d"], Outcome.fail) = true := by decide
+-- call 5 is the Chtimes of d/a (mkdir, open, three streamed writes 3+3+1, chtimes)
+example : (copyRunF exSmall fullReader true (planAt 5 .fail) exT).log.map (·.1) = (copyOps exSmall fullReader true exT).1 ∧
+    (copyRunF exSmall fullReader true (planAt 5 .fail) exT).ok = true := by decide
+example : Benign (copyRunF exSmall fullReader true (planAt 5 .fail) exT) := by
+  intro e he
+  have : (e.2 = .ok ∨ isChtimes e.1 = true) = true := by
+    revert e
+    decide
+  simpa using this
+example : (copyRunF exSmall fullReader true (planCaps [1]) exT).ok = true ∧
+    applyOps (copyRunF exSmall fullReader true (planCaps [1]) exT).eff [] =
+      some [(["d"], .dir), (["d", "a"], .file [1, 2, 3, 4, 5, 6, 7]), (["f"], .file [9])] := by decide
+-- whole-file path: a short write is an error (io.ErrShortWrite)
+example : (copyRunF exSmall fullReader true (planAt 7 (.short 0)) exT).ok = false := by decide
+
+/-! names that a case-folding or trimming normaliser would identify are different names: an extra
+    README.TXT beside readme.txt, an extra Docs tree, a trailing dot, are reported -/
+private def exDocs : Forest := .dir "docs" (.file "readme.txt" [1, 2] .nil) .nil
+example : compareFS exCfg fullReader fullReader exDocs (.dir "docs" (.file "README.TXT" [1, 2] (.file "readme.txt" [1, 2] .nil)) .nil)
+    = .extra ["docs", "README.TXT"] := by decide
+example : compareFS exCfg fullReader fullReader exDocs (.dir "Docs" (.file "readme.txt" [1, 2] .nil) exDocs)
+    = .extra ["Docs"] := by decide
+example : compareFS exCfg fullReader fullReader (.dir "Docs" (.file "readme.txt" [1, 2] .nil) exDocs) exDocs
+    = .missing ["Docs"] := by decide
+example : compareFS exCfg fullReader fullReader exDocs (.dir "docs" (.file "readme.txt" [1, 2] (.file "readme.txt." [1, 2] .nil)) .nil)
+    = .extra ["docs", "readme.txt."] := by decide
+example : compareFS exCfg fullReader fullReader
+    (.file "A" [1] (.file "a" [2] .nil)) (.file "A" [2] (.file "a" [1] .nil)) = .contentMismatch ["A"] := by decide
+example : VerdictTrue exCfg.excluded exDocs (.dir "Docs" (.file "readme.txt" [1, 2] .nil) exDocs) (.extra ["Docs"]) := by
+  refine ⟨by decide, ⟨.dir, by decide⟩, by decide⟩
 
 end Diskfs.Sync.C16
